@@ -97,7 +97,7 @@ def emit_clauses(em, kw, clauses, unit, fn, kind, indent='    '):
 
 SHADOWED_FN_NAMES = {'coin', 'coins', 'attr', 'mint', 'burn'}
 CLOSURE_PREV = {'(', ',', '=', '=>', '{', ';', 'return', 'move', '&&', '||', '!'}
-PRED_ADAPTERS = {'into_iter_filter', 'iter_position', 'iter_any', 'iter_all', 'iter_find', 'iter_filter', 'position', 'any', 'all', 'find', 'filter', 'iter_count_where', 'is_some_and', 'retain'}
+PRED_ADAPTERS = {'iter_count', 'into_iter_filter', 'iter_position', 'iter_any', 'iter_all', 'iter_find', 'iter_filter', 'position', 'any', 'all', 'find', 'filter', 'iter_count_where', 'is_some_and', 'retain'}
 
 
 def closure_starts(toks):
@@ -358,6 +358,40 @@ def splice_after_let(body, fspec, fname):
         if found is None:
             raise ExtractError('after_let anchor `%s` not found in %s' % (name, fname))
         out[found + 1:found + 1] = [T('raw', '\n' + '\n'.join(lines) + '\n', out[found].start)]
+    return out
+
+
+def rewrite_for_filter(body, rw):
+    """R8c: `for X in EXPR.iter().filter(|X| P) {B}` -> `for X in EXPR.iter() { if P { B } }`
+    (only when the closure parameter has the loop variable's name; otherwise left alone)"""
+    out = list(body)
+    k = 0
+    while k < len(out):
+        if is_id(out[k], 'for') and (prv_sig(out, k) < 0 or not is_p(out[prv_sig(out, k)], '.')):
+            j = k + 1
+            while j < len(out) and not is_id(out[j], 'in'):
+                j += 1
+            var = text_of(out[k + 1:j]).strip()
+            bo = find_body_open(out, j + 1)
+            sg = [q for q in range(j + 1, bo) if out[q].kind not in ('ws', 'comment', 'doc')]
+            # ... . filter ( | var | P )
+            if len(sg) >= 6 and is_p(out[sg[-1]], ')'):
+                op = None
+                for q in sg:
+                    if is_p(out[q], '(') and match_close(out, q) == sg[-1]:
+                        op = q
+                if op is not None:
+                    pi = sg.index(op)
+                    if pi >= 2 and is_id(out[sg[pi - 1]], 'filter') and is_p(out[sg[pi - 2]], '.'):
+                        inner = [q for q in range(op + 1, sg[-1]) if out[q].kind not in ('ws', 'comment', 'doc')]
+                        if len(inner) >= 4 and is_p(out[inner[0]], '|') and is_id(out[inner[1]], var) and is_p(out[inner[2]], '|'):
+                            pred = text_of(out[inner[3]:sg[-1]]).strip()
+                            rw.rec('R8c', 'for %s in ..filter(|%s| %s)' % (var, var, pred), 'for %s in .. { if %s { .. } }' % (var, pred))
+                            be = match_close(out, bo)
+                            guard = T('raw', ' if %s {' % pred, out[bo].start)
+                            new = out[:sg[pi - 2]] + [T('ws', ' ', out[bo].start)] + [out[bo]] + [guard] + out[bo + 1:be] + [T('raw', '} ', out[be].start)] + out[be:]
+                            out = new
+        k += 1
     return out
 
 
@@ -692,6 +726,7 @@ def emit_fn(em, unit, it, toks, fspec, path, src_text, rw):
             em.emit(ln)
     body = anf_split_try_map_filter(body, rw)
     body = rewrite_clone_from(body, rw)
+    body = rewrite_for_filter(body, rw)
     if fspec and fspec.after_let:
         body = splice_after_let(body, fspec, lname)
     body = desugar_incl_ranges(body, fspec, rw)
